@@ -27,6 +27,10 @@ pub struct Case {
     /// which target message (index into the message shapes)
     pub shape: usize,
     pub iface: Iface,
+    /// the session's messages sit at the END of the sequence space: the target (index 2) is sealed at
+    /// sequence number 2^64-1 (reached with the hook, then two real opens)
+    #[serde(default)]
+    pub last: bool,
 }
 
 pub struct C06;
@@ -38,12 +42,12 @@ pub const SHAPES: [(usize, usize); 12] = [(0, 0), (1, 0), (16, 1), (17, 16), (64
 /// zero is ALREADY zero - the inputs where "truncate" and "zero-pad" coincide:
 /// shape 8: last tag byte 00; shape 9: first tag byte 00; shape 10: last ciphertext-body byte 00;
 /// shape 11: last tag byte 00 with a block-sized body
-fn witness_aad(refctx: &crate::refmodel::Ctx, pos: usize, shape: usize, pt: &[u8]) -> Option<Vec<u8>> {
+fn witness_aad(refctx: &crate::refmodel::Ctx, pos: u128, shape: usize, pt: &[u8]) -> Option<Vec<u8>> {
     let nt = refctx.suite.aead.nt();
     for ctr in 0u32..20000 {
         let mut aad = b"wit-".to_vec();
         aad.extend_from_slice(&ctr.to_be_bytes());
-        let ct = refctx.seal_at(pos as u128, &aad, pt);
+        let ct = refctx.seal_at(pos, &aad, pt);
         let tag = &ct[ct.len() - nt..];
         let ok = match shape {
             8 | 11 => tag[nt - 1] == 0,
@@ -100,7 +104,10 @@ impl Part for C06 {
                             if single && !t && suite.kem != crate::refmodel::Kem::X25519 {
                                 continue;
                             }
-                            v.push(Case { suite, mode, pos, shape, iface });
+                            v.push(Case { suite, mode, pos, shape, iface, last: false });
+                            if pos == 2 && !single && (shape % 4 == 0 || t) && mode == Mode::Base {
+                                v.push(Case { suite, mode, pos, shape, iface, last: true });
+                            }
                         }
                     }
                 }
@@ -111,7 +118,7 @@ impl Part for C06 {
     fn run(&self, cfg: &Cfg, c: &Case) -> CaseOut {
         let mut out = CaseOut::new();
         out.nontrivial = true;
-        out.outcome = format!("{:?}/{}", c.iface, c.suite.aead.name());
+        out.outcome = format!("{:?}/{}{}", c.iface, c.suite.aead.name(), if c.last { "/last-seq" } else { "" });
         let ops = suite_ops(c.suite);
         let k = keys(c.suite.kem, 6000 + c.shape as u64, cfg.seed);
         let info = bytes(Fill::Mix, 20, 10, cfg.seed);
@@ -125,19 +132,20 @@ impl Part for C06 {
                 return out;
             }
         };
+        let base: u128 = if c.last { (u64::MAX - 2) as u128 } else { 0 };
         let mut msgs: Vec<Msg> = vec![];
-        for i in 0..5usize {
+        for i in 0..(if c.last { 3usize } else { 5 }) {
             let shape = if i == c.pos { c.shape } else { (c.shape + 1 + i) % 8 };
             let (pl, al) = SHAPES[shape];
             let mut pt = bytes(Fill::Mix, pl, 600 + i as u64, cfg.seed);
             if i == c.pos && shape == 10 {
                 // the body does not depend on the aad: choose the plaintext so that the last body byte is 00
-                let probe = refctx.seal_at(i as u128, b"", &pt);
+                let probe = refctx.seal_at(base + i as u128, b"", &pt);
                 let l = pt.len();
                 pt[l - 1] ^= probe[l - 1];
             }
             let aad = if i == c.pos && shape >= 8 {
-                match witness_aad(&refctx, i, shape, &pt) {
+                match witness_aad(&refctx, base + i as u128, shape, &pt) {
                     Some(a) => a,
                     None => {
                         out.fail("no witness aad found in 20000 tries (machinery)");
@@ -149,7 +157,7 @@ impl Part for C06 {
                 a.push(i as u8); // aads of different messages differ
                 a
             };
-            let ct = refctx.seal_at(i as u128, &aad, &pt);
+            let ct = refctx.seal_at(base + i as u128, &aad, &pt);
             msgs.push(Msg { pt, aad, ct });
         }
         let target = &msgs[c.pos];
@@ -248,6 +256,9 @@ impl Part for C06 {
                     return None;
                 }
             };
+            if c.last {
+                r.set_seq(base as u64);
+            }
             for i in 0..c.pos {
                 if r.open(&msgs[i].ct, &msgs[i].aad) != Obs::Ok(msgs[i].pt.clone()) {
                     out.fail(format!("could not advance the receiver to position {}", c.pos));
@@ -318,7 +329,7 @@ impl Part for C06 {
         }
         if single {
             // a single-shot receiver is at position 0: the untampered position-2 message must be rejected
-            let o = &msgs[2];
+            let o = &msgs[2.min(msgs.len() - 1)];
             out.transitions += 1;
             let res: Obs<Vec<u8>> = match c.iface {
                 Iface::SingleShotOpen => ops.single_shot_open(&m, &k.sk_r, &enc, &info, &o.ct, &o.aad),
